@@ -90,7 +90,7 @@ def explore_scenario(exe, scenario, mode_args, trace_module, workdir, tag, max_r
             m = re.search(r'"s":"([0-9 ]*)"', target[-1])
             sched = [int(x) for x in m.group(1).split()] if m else None
         rejs.append({"scenario": scenario, "mode": list(map(str, mode_args)), "schedule": sched, "execution": target or [], "trace_line": pos,
-                     "runner_rc": rc, "runner_err": err[-3000:] if rc != 0 else ""})
+                     "runner_rc": rc, "runner_err": ((err if len(err) <= 9000 else err[:6000] + "\n[...]\n" + err[-3000:]) if rc != 0 else "")})      # a sanitizer report starts with the two access stacks
         nev += line_no
         if len(rejs) >= max_rej or target is None:
             break
